@@ -348,21 +348,29 @@ func doParent(p *props.Prop, tier string, seed uint64, root string, jobs int, ra
 	}
 	wg.Wait()
 
-	// race reports
-	raceReports := 0
-	var raceSamples []string
+	// race reports: a report with a frame of the code under test in either stack is a finding;
+	// reports wholly inside dependencies / the harness are recorded as external observations
+	raceReports, raceExternal := 0, 0
+	raceByKey := map[string][]string{}
 	if p.Race {
 		files, _ := filepath.Glob(filepath.Join(dir, "race_*"))
 		for _, f := range files {
 			b, _ := os.ReadFile(f)
 			blocks := strings.Split(string(b), "WARNING: DATA RACE")
 			for _, blk := range blocks[1:] {
+				if !strings.Contains(blk, "github.com/artela-network/artela-evm/") && !strings.Contains(blk, "/repo/") {
+					raceExternal++
+					continue
+				}
 				raceReports++
-				if len(raceSamples) < 5 {
-					if len(blk) > 3000 {
-						blk = blk[:3000]
-					}
-					raceSamples = append(raceSamples, blk)
+				key := props.Key("race", raceLocus(blk))
+				if len(blk) > 3500 {
+					blk = blk[:3500]
+				}
+				if len(raceByKey[key]) < 2 {
+					raceByKey[key] = append(raceByKey[key], blk)
+				} else {
+					raceByKey[key] = append(raceByKey[key], "")
 				}
 			}
 		}
@@ -418,17 +426,25 @@ func doParent(p *props.Prop, tier string, seed uint64, root string, jobs int, ra
 		key := props.Key("crash", "worker-fatal", cases[i].Kind)
 		byKey[key] = append(byKey[key], hit{i, props.Finding{Key: key, Msg: "worker process died while running this case", Detail: strings.Split(msg, "\n")}})
 	}
-	if p.Race && raceReports > 0 {
-		agg.Obs["race_reports"] = int64(raceReports)
+	if p.Race {
+		agg.Obs["race_reports_in_code_under_test"] = int64(raceReports)
+		agg.Obs["race_reports_external"] = int64(raceExternal)
 	}
 	if p.Finish != nil {
 		for _, f := range p.Finish(agg, tier) {
 			byKey[f.Key] = append(byKey[f.Key], hit{-1, f})
 		}
 	}
-	if p.Race && raceReports > 0 {
-		key := props.Key("race", "detector-report")
-		byKey[key] = append(byKey[key], hit{-1, props.Finding{Key: key, Msg: fmt.Sprintf("%d race detector reports", raceReports), Detail: raceSamples}})
+	for key, blks := range raceByKey {
+		var det []string
+		for _, b := range blks {
+			if b != "" {
+				det = append(det, strings.Split(b, "\n")...)
+			}
+		}
+		for range blks {
+			byKey[key] = append(byKey[key], hit{-1, props.Finding{Key: key, Msg: fmt.Sprintf("race detector: %d reports with a frame of artela-evm (first access pair shown)", len(blks)), Detail: det}})
+		}
 	}
 
 	kn := loadKnown(root)
@@ -563,6 +579,37 @@ func doParent(p *props.Prop, tier string, seed uint64, root string, jobs int, ra
 		return 2
 	}
 	return 0
+}
+
+// raceLocus names a race report by the first artela-evm function of each of its two access stacks.
+func raceLocus(blk string) string {
+	var fns []string
+	for _, part := range strings.Split(blk, "\n\n") {
+		if !(strings.Contains(part, "Write at") || strings.Contains(part, "Read at") || strings.Contains(part, "Previous write") || strings.Contains(part, "Previous read")) {
+			continue
+		}
+		for _, line := range strings.Split(part, "\n") {
+			line = strings.TrimSpace(line)
+			if strings.HasPrefix(line, "github.com/artela-network/artela-evm/") {
+				fn := strings.TrimPrefix(line, "github.com/artela-network/artela-evm/")
+				if i := strings.IndexByte(fn, '('); i > 0 && !strings.HasPrefix(fn[i:], "(*") {
+					fn = fn[:i]
+				}
+				if i := strings.LastIndex(fn, "("); i > 0 && strings.HasSuffix(fn, ")") && !strings.Contains(fn[i:], "*") {
+					fn = fn[:i]
+				}
+				fns = append(fns, fn)
+				break
+			}
+		}
+		if len(fns) == 2 {
+			break
+		}
+	}
+	if len(fns) == 0 {
+		return "unattributed"
+	}
+	return strings.Join(fns, "--")
 }
 
 func sanitize(s string) string {
